@@ -405,6 +405,22 @@ def run(ctx):
             ctx.rule('C03.R0', 'INTERNAL', 'checker integrity').bad('cap|' + fn.__name__, '', str(e))
 
 
+def r12_pad_length_octet(ctx, rid='C03.R12'):
+    r = ctx.rule(rid, 'FLOW', 'a PADDED DATA frame is flow-controlled as payload + padding + the Pad Length octet, whatever the pad length (also 0)')
+    F = ctx.facts
+    ld = r.fn('frame::data::Data::load')
+    if ld:
+        ints = [bi for bi, sw in core.all_switches(F, ld).items() if sw is not None and sw.kind in ('int', 'cmp') and core.contains_call(sw.subject, 'frame::util::strip_padding')]
+        r.check(not ints, 'load|pad-len-as-returned', ld.file, 'Data::load stores Some(pad length) for every PADDED frame without inspecting the value%s' % ('' if not ints else ' — the value is tested: a PADDED frame with Pad Length 0 would be charged one octet less than the peer spent'))
+        somes = [1 for bi, si, pl, rv, ln in ld.stmts() if rv[0] == 'aggr' and str(rv[2]).endswith('Option::Some') and core.contains_call(ld.expr_of_rvalue(rv), 'frame::util::strip_padding')]
+        r.check(bool(somes), 'load|pad-len-some', ld.file, 'pad_len = Some(strip_padding(..)?)')
+    fl = r.fn('frame::data::Data::flow_controlled_len')
+    if fl:
+        ones = [c for bi, si, pl, rv, ln in fl.stmts() for c in core.consts_in(fl.expr_of_rvalue(rv)) if c[1] == 1 and not isinstance(c[1], bool)]
+        e = core.edges_where(F, fl, lambda sw: sw.kind == 'variant' and core.last_field(strip(sw.subject)) == ('frame::data::Data', 'pad_len'), lambda l: l == frozenset(['Some']))
+        r.check(bool(ones) and bool(e), 'len|plus-one', fl.file, 'flow_controlled_len adds pad_len + 1 on the Some edge')
+
+
 def r11_ledger_zeroed_after_release(ctx):
     r = ctx.rule('C03.R11', 'PAIR', 'the in-flight ledger of a stream is zeroed only after its value was credited back (release first, then reset the ledger)')
     F = ctx.facts
@@ -437,6 +453,7 @@ def run(ctx):
     boundaries.check_codes(ctx, 'C03.RE', 'C03')
     boundaries.check_writes(ctx, 'C03.RW', 'C03')
     r11_ledger_zeroed_after_release(ctx)
+    r12_pad_length_octet(ctx)
     boundaries.check_guards(ctx, 'C03.RG', 'C03')
     boundaries.check_calls(ctx, 'C03.RC', 'C03')
     from . import C06
